@@ -589,7 +589,7 @@ func reifySliceMerge(
 		ol := old.Len()
 
 		switch arrMergeCfg {
-		case cfgReplaceValue:
+		case cfgReplaceValue, cfgArrReplaceValue:
 			// do nothing
 
 		case cfgArrAppend:
